@@ -390,9 +390,51 @@ def check_expand(case, ctx):
         ctx.sample({"script": "expandverif", "init": case["init"], "lt": case["lt"], "input_times": times, "input_leadtimes": leads, "matches": matches})
 
 
+# ---- accumulate on files of ordinary size (a month of runs, two days of hourly lead times) -------------------------
+def acc_long_strategy(tier):
+    """The generated datasets above have at most 5 entries per dimension. Real files are longer, and code paths may depend on the size
+    (e.g. a library routine choosing another algorithm), so a second campaign builds larger files: only the sizes, the window, the
+    positions of a few missing values and a seed are drawn; the values follow from the seed by a fixed recurrence."""
+    @st.composite
+    def s(draw):
+        return {"long": {"T": draw(st.sampled_from([4, 12, 20])), "L": draw(st.sampled_from([12, 24, 48])), "S": draw(st.sampled_from([3, 10])),
+                         "seed": draw(st.integers(1, 10 ** 6)), "n_missing": draw(st.sampled_from([0, 1, 1, 2, 5]))},
+                "axis": draw(st.sampled_from(["leadtime", "leadtime", "time"])), "w": draw(st.sampled_from([2, 3, 6, 12, 24])),
+                "ignore": draw(st.sampled_from([False, False, True])), "kind": "netcdf", "explicit_x": draw(st.booleans())}
+    return s()
+
+
+def long_spec(p):
+    from .. import fixed
+    rnd = fixed._lcg(p["seed"])
+    T, L, S = p["T"], p["L"], p["S"]
+    times = [1262304000 + 86400 * a for a in range(T)]
+    leads = [float(b) for b in range(L)]
+    locs = [{"id": 10 + c, "lat": 40.0 + c, "lon": 5.0 + 0.5 * c, "elev": 100.0 + 10 * c} for c in range(S)]
+    obs = [[[rnd(81) / 4.0 for _ in range(S)] for _ in range(L)] for _ in range(T)]
+    fcst = [[[rnd(81) / 4.0 for _ in range(S)] for _ in range(L)] for _ in range(T)]
+    for k in range(p["n_missing"]):
+        arr = obs if k % 2 == 0 else fcst
+        arr[rnd(T)][rnd(L)][rnd(S)] = None
+    d = {"name": "long", "ti": list(range(T)), "li": list(range(L)), "si": list(range(S)), "obs": obs, "fcst": fcst}
+    return {"times": times, "leadtimes": leads, "locs": locs, "var": {"name": "Precip", "units": "mm", "x0": None, "x1": None}, "inputs": [d], "clim": None}
+
+
+def check_accumulate_long(case, ctx):
+    if "long" not in case:
+        return check_accumulate(case, ctx)
+    p = case["long"]
+    n = p["L"] if case["axis"] == "leadtime" else p["T"]
+    if case["w"] > n:
+        return
+    ctx.label("acc-long/%dx%dx%d" % (p["T"], p["L"], p["S"]))
+    return check_accumulate(dict(case, spec=long_spec(p)), ctx)
+
+
 def campaigns(tier):
     return [
         Hyp("accumulate", acc_strategy, check_accumulate, quick=960, thorough=30000, budget_quick=50, budget_thorough=1200),
+        Hyp("accumulate-long", acc_long_strategy, check_accumulate_long, quick=96, thorough=3000, budget_quick=40, budget_thorough=900),
         Hyp("ens2prob", ens_strategy, check_ens2prob, quick=960, thorough=30000, budget_quick=50, budget_thorough=1200),
         Hyp("expandverif", expand_strategy, check_expand, quick=640, thorough=20000, budget_quick=50, budget_thorough=1200),
     ]
